@@ -55,7 +55,7 @@ class LoopSpec:
 
     def __init__(self, inv, modifies=(), locals_mod=None, name="inv"):
         self.inv = inv
-        self.modifies = tuple(modifies)
+        self.modifies = modifies if modifies == "*" else tuple(modifies)
         self.locals_mod = locals_mod
         self.name = name
 
@@ -326,6 +326,13 @@ class Engine:
         else:
             raise Unsupported(f"field kind {kind}")
 
+    def elem_key(self, st, v):
+        """Key under which a hashable object is stored in a set[key] / map[key,ref]: its equivalence class under
+        __eq__ (an uninterpreted function of the reference: __eq__/__hash__ are assumed consistent)."""
+        if not isinstance(v, SRef):
+            raise Unsupported(f"key of {v!r}")
+        return z3.Function("eqclass", z3.IntSort(), z3.IntSort())(v.z)
+
     # ------------------------------------------------------------------ truthiness
     def truth(self, st, v):
         if isinstance(v, SBool):
@@ -475,6 +482,11 @@ class Engine:
                 out.append(("exc", s2, v))
             elif inspect.isclass(v) and issubclass(v, BaseException):
                 out.append(("exc", s2, Exc(v)))
+            elif isinstance(v, SRef) and all(issubclass(c, BaseException) for c in self.classes_of(s2, v)):
+                orig = s2.ghost.get(("excobj", v.z.get_id()))
+                cls = orig.cls if orig is not None else self.classes_of(s2, v)[0]
+                e = Exc(cls, "stored")
+                out.append(("exc", s2, e))
             else:
                 raise Unsupported(f"raise of {v!r}", node)
         return out
@@ -586,7 +598,20 @@ class Engine:
 
     def st_Try(self, node, st):
         if node.finalbody:
-            raise Unsupported("try/finally", node)
+            inner = ast.Try(body=node.body, handlers=node.handlers, orelse=node.orelse, finalbody=[])
+            ast.copy_location(inner, node)
+            outs = self.st_Try(inner, st) if (node.handlers or node.orelse) else self.exec_block(node.body, st)
+            res = []
+            for kind, s2, v in outs:
+                if kind == "cut":
+                    res.append((kind, s2, v))
+                    continue
+                for k2, s3, v2 in self.exec_block(node.finalbody, s2):
+                    if k2 == "ok":
+                        res.append((kind, s3, v))     # the original outcome resumes after the finally block
+                    else:
+                        res.append((k2, s3, v2))      # the finally block itself returned / raised / broke out
+            return res
         out = []
         for kind, s2, v in self.exec_block(node.body, st):
             if kind != "exc":
@@ -602,20 +627,21 @@ class Engine:
                 else:
                     tv = self.ev_concrete(h.type, s2)
                     tv = tv if isinstance(tv, tuple) else (tv,)
-                    if v.cls is Exception and v.note == "any":
-                        # an unknown exception: may or may not match; over-approximate with both
+                    match = issubclass(v.cls, tv)
+                    if not match and any(issubclass(t, v.cls) for t in tv) and getattr(v, "note", "") != "stored":
+                        # an exception known only by a base class may or may not be of the handled subclass: both
                         s3 = s2.fork()
                         s3.ghost["handling"] = v
                         if h.name:
-                            s3.locals[h.name] = Opaque("exception")
+                            s3.locals[h.name] = s3.alloc(v.cls)
                         out.extend(self.exec_block(h.body, s3))
-                        match = False
-                    else:
-                        match = issubclass(v.cls, tv)
                 if match:
                     s2.ghost["handling"] = v
                     if h.name:
-                        s2.locals[h.name] = Opaque("exception")
+                        # the caught exception object: a live object of the exception's class
+                        eref = s2.alloc(v.cls)
+                        s2.ghost[("excobj", eref.z.get_id())] = v
+                        s2.locals[h.name] = eref
                     out.extend(self.exec_block(h.body, s2))
                     handled = True
                     break
@@ -707,10 +733,15 @@ class Engine:
         st.obligations.append((f"{oname}/{spec.name}.init", list(st.pc), zbool(spec.inv(self, entry, st))))
         # 2. arbitrary iteration: havoc what the body may modify, assume invariant
         h = st.fork()
-        for f in spec.modifies:
-            h.heap.havoc_field(f)
-            if h.heap.schema.get(f) in ("optint", "optstr"):
-                h.heap.havoc_field(f + "$none")
+        if spec.modifies == "*":
+            h.heap.havoc_all()
+            for f in [k for k in h.heap.arrays if k.startswith("$") and k not in ("$alive", "$cls")]:
+                h.heap.havoc_field(f)
+        else:
+            for f in spec.modifies:
+                h.heap.havoc_field(f)
+                if h.heap.schema.get(f) in ("optint", "optstr"):
+                    h.heap.havoc_field(f + "$none")
         mods = spec.locals_mod if spec.locals_mod is not None else self._assigned_names(node.body)
         for n in mods:
             if n in h.locals:
